@@ -176,9 +176,9 @@ Proof.
   - apply first_ok_in in Hx. destruct Hx as (m & I & F).
     apply existsb_exists. exists m. split; [exact I|].
     rewrite Forall_forall in H. exact (H m I v x F).
-  - destruct (existsb (py_eqb v) vals) eqn:E; [|discriminate].
+  - destruct (existsb (lit_match v) vals) eqn:E; [|discriminate].
     apply existsb_exists in E. destruct E as (l & I & E). apply existsb_exists. exists l. split; [exact I|].
-    now apply lit_kinds_sound.
+    apply lit_kinds_sound. now apply lit_match_eqb.
   - destruct (tc t v) as [y| |e] eqn:E; try discriminate. eapply IHt; eauto.
 Qed.
 
@@ -200,10 +200,10 @@ Proof.
     rewrite (Hm Rm v A1). apply IH; try assumption.
     match goal with HP : pairwise_disjoint (m :: ms) = true |- _ => simpl in HP; apply andb_prop in HP; apply HP end.
   - (* literal *)
-    destruct (existsb (py_eqb v) vals) eqn:E; [|reflexivity].
+    destruct (existsb (lit_match v) vals) eqn:E; [|reflexivity].
     apply existsb_exists in E. destruct E as (l & I & E).
     assert (X : existsb (fun l0 => lit_kinds l0 (kind_of v)) vals = true).
-    { apply existsb_exists. exists l. split; [exact I|]. now apply lit_kinds_sound. }
+    { apply existsb_exists. exists l. split; [exact I|]. apply lit_kinds_sound. now apply lit_match_eqb. }
     rewrite X in A. discriminate.
   - match goal with HR : rt_ty t |- _ => rewrite (IHt HR v A) end. reflexivity.
 Qed.
@@ -273,9 +273,9 @@ Proof. intros P F. rewrite into_union_unfold, (union_pick_skip pre m post x y P 
 Lemma lit_self v l : lit_scalar l -> py_eqb v l = true -> into_auto v = Ok v.
 Proof. destruct l; simpl; try tauto; intros _; destruct v; simpl; try discriminate; reflexivity. Qed.
 
-Lemma lit_member_self v vals : Forall lit_scalar vals -> existsb (py_eqb v) vals = true -> into_auto v = Ok v.
+Lemma lit_member_self v vals : Forall lit_scalar vals -> existsb (lit_match v) vals = true -> into_auto v = Ok v.
 Proof.
-  intros F E. apply existsb_exists in E. destruct E as (l & I & E).
+  intros F E. apply existsb_exists in E. destruct E as (l & I & E). apply lit_match_eqb in E.
   rewrite Forall_forall in F. eapply lit_self; eauto.
 Qed.
 
@@ -517,7 +517,7 @@ Proof.
     + simpl. apply first_ok_skip; assumption.
     + exists d'. split; [exact I2|]. simpl. apply first_ok_skip; assumption.
   - (* scalar literals *)
-    intros v x Hx. simpl in Hx. destruct (existsb (py_eqb v) vals) eqn:E; [|discriminate].
+    intros v x Hx. simpl in Hx. destruct (existsb (lit_match v) vals) eqn:E; [|discriminate].
     inversion Hx; subst x. pose proof (lit_member_self v vals H0 E) as S.
     repeat split.
     + exists v. simpl. rewrite S, E. split; reflexivity.
